@@ -40,6 +40,9 @@ def phases(quick):
         ("2tags/newline-seq", 2, [("",), g.CHUNKS_SMALL, ("", "\n  ")], g.tags("none") + raw2, "nlseq2"),
         # the trim/lstrip setting selected by overlay() after the parent has loaded the template by name
         ("1tag/overlay-after-load", 1, [g.CHUNKS_MID, g.CHUNKS_MID], g.tags("outer", (RAW_BODY_A,)), "overlay"),
+        # the template starts with {% probe %}: an extension tag that uses another environment (lstrip_blocks flipped)
+        # while this template is being parsed
+        ("1tag/other-env-during-parse", 1, [g.CHUNKS_MID, g.CHUNKS_MID], g.tags("outer", (RAW_BODY_A,)), "interleave"),
     ]
     if quick:
         full = g.CHUNKS
@@ -57,9 +60,41 @@ def phases(quick):
     ]
 
 
+_PROBE_EXT = []
+
+
+def probe_extension():
+    """An extension whose tag {% probe %} uses ANOTHER environment (same options except lstrip_blocks flipped)
+    while the template that contains the tag is still being parsed (the parser pulls tokens lazily)."""
+    if not _PROBE_EXT:
+        import jinja2
+        from jinja2 import nodes
+        from jinja2.ext import Extension
+
+        class ProbeExtension(Extension):
+            tags = {"probe"}
+
+            def parse(self, parser):
+                lineno = next(parser.stream).lineno
+                e = self.environment
+                other = jinja2.Environment(trim_blocks=e.trim_blocks, lstrip_blocks=not e.lstrip_blocks,
+                                           newline_sequence=e.newline_sequence)
+                other.from_string("  {% set q = 1 %}\nx").render()
+                return nodes.Output([nodes.TemplateData("")]).set_lineno(lineno)
+
+        _PROBE_EXT.append(ProbeExtension)
+    return _PROBE_EXT[0]
+
+
+PROBE_TAG = ("block", "", "", " probe ")
+
+
 def render(src, trim, lstrip, ns="\n", via="from_string"):
     import jinja2
 
+    if via == "other-env-during-parse":
+        return jinja2.Environment(trim_blocks=trim, lstrip_blocks=lstrip, newline_sequence=ns,
+                                  extensions=[probe_extension()]).from_string(src).render()
     if via == "from_string":
         return jinja2.Environment(trim_blocks=trim, lstrip_blocks=lstrip, newline_sequence=ns).from_string(src).render()
     # the setting is selected with overlay() after the linked environment has loaded the same template by name
@@ -74,6 +109,7 @@ MODES = {
     "nlseq": [("\r\n", "\n", "from_string"), ("\r", "\n", "from_string"), ("\r\n", "\r\n", "from_string")],
     "nlseq2": [("\r\n", "\n", "from_string"), ("\r", "\n", "from_string")],
     "overlay": [("\n", "\n", "overlay-after-load"), ("\r\n", "\n", "overlay-after-load")],
+    "interleave": [("\n", "\n", "other-env-during-parse")],
 }
 
 
@@ -86,11 +122,14 @@ def tag_label(t):
 def shard(arg) -> core.Part:
     quick, phase_idx, k, n = arg
     name, ntags, slots, tagset, *rest = phases(quick)[phase_idx]
-    variants = MODES[rest[0] if rest else "plain"]
+    mode = rest[0] if rest else "plain"
+    variants = MODES[mode]
     p = core.Part()
     nsk = 0
     for sk in g.skeletons(ntags, tagset=tagset, shard=k, nshards=n, chunk_slots=slots):
         nsk += 1
+        if mode == "interleave":
+            sk = ("", PROBE_TAG) + sk  # {% probe %} is a block tag that renders nothing
         src_n = g.to_source(sk)
         labels = "+".join(tag_label(t) for t in sk[1::2])
         for trim, lstrip in g.SETTINGS:
